@@ -70,9 +70,28 @@ Definition unlock_complete (stopped : bool) (a : action) (prev cur : sobs) : boo
   | _ => true
   end.
 
+(* (4) "every later change to a matching object ... reaches the hook as an Event binding context":
+   an event an UNLOCKED monitor emits is queued - after the step some task of some queue carries an
+   Event context of that binding for that very event (events are numbered by the harness); it
+   cannot be dropped because a run of the same hook or group is queued or running already *)
+Definition has_event (o : sobs) (b obj : N) : bool :=
+  existsb (fun q => existsb (fun t => existsb (fun c => match c_kind c with
+                                                         | KEvent => N.eqb (c_binding c) b && N.eqb (c_obj c) obj
+                                                         | _ => false
+                                                         end) (t_ctxs t)) (qo_items q)) (so_queues o).
+Definition event_queued (cfg : config) (stopped : bool) (a : action) (prev cur : sobs) : bool :=
+  match a with
+  | KubeEv m obj =>
+      if mem_N m (so_unlocked prev) && negb stopped
+      then forallb (fun hb => if N.eqb (kb_mon (snd hb)) m then has_event cur (kb_name (snd hb)) obj else true)
+                   (kube_bindings cfg)
+      else true
+  | _ => true
+  end.
+
 Definition step_ok (cfg : config) (stopped : bool) (a : action) (prev cur : sobs) : bool :=
   negb (so_bad cur) && unlock_legal cfg a prev cur && events_only_unlocked cfg cur
-  && unlock_complete stopped a prev cur.
+  && unlock_complete stopped a prev cur && event_queued cfg stopped a prev cur.
 
 Fixpoint steps_ok (cfg : config) (stopped : bool) (prev : sobs) (acts : list action) (obs : list sobs) : bool :=
   match acts, obs with
